@@ -188,6 +188,25 @@ def linked_binaries(out, tooldir, env, tier):
                 if p.returncode != want:
                     out.violation("gate:linked", "binary linked with version %s, configuration %s: exit %d, documented rule says %d" % (
                         L, V, p.returncode, want), {"linked": L, "V": V, "stdout": p.stdout[-1500:]})
+            # no version declared: the gate is skipped, whatever the build is
+            open(cfg, "w").write("parameters: {p: 1}\n")
+            p = subprocess.run([binp, "build", "-i", cfg, "-o", os.path.join(tmp, "o.go")], stdout=subprocess.PIPE, stderr=subprocess.PIPE, text=True, timeout=60)
+            n += 1
+            if p.returncode != 0:
+                out.violation("gate:linked-no-version", "binary linked with version %s rejects a configuration that declares no version" % linked, {"linked": linked, "V": None, "stdout": p.stdout[-1500:]})
+            # several files declaring a version: the last declaration is the configured one
+            if linked in ("v1.2.3", "1.2.3"):
+                for V1, V2, want in [("1.2.0", "1.3.0", 1), ("1.3.0", "1.2.0", 0), ("2.0.0", "1.2.9", 0), ("1.1.0", "2.0.0", 1)]:
+                    d2 = os.path.join(tmp, "two")
+                    shutil.rmtree(d2, ignore_errors=True)
+                    os.makedirs(d2)
+                    open(os.path.join(d2, "10.yaml"), "w").write("version: \"%s\"\nparameters: {p: 1}\n" % V1)
+                    open(os.path.join(d2, "20.yaml"), "w").write("version: \"%s\"\nparameters: {q: 2}\n" % V2)
+                    p = subprocess.run([binp, "build", "-i", os.path.join(d2, "*.yaml"), "-o", os.path.join(tmp, "o.go")], stdout=subprocess.PIPE, stderr=subprocess.PIPE, text=True, timeout=60)
+                    n += 1
+                    if p.returncode != want:
+                        out.violation("gate:linked-two-files", "binary %s, files declaring %s then %s: exit %d, the last declared version decides (%d)" % (linked, V1, V2, p.returncode, want),
+                                      {"linked": linked, "V": [V1, V2], "stdout": p.stdout[-1500:]})
             os.remove(binp)
     finally:
         shutil.rmtree(tmp, ignore_errors=True)
